@@ -1777,7 +1777,7 @@ func ConstructorCompleteness(p *core.Program, r *core.Report) {
 		ok := false
 		ast.Inspect(sel.Decl.Body, func(nd ast.Node) bool {
 			ifs, isIf := nd.(*ast.IfStmt)
-			if !isIf || len(ifs.Body.List) != 1 {
+			if !isIf {
 				return true
 			}
 			c, isC := ast.Unparen(ifs.Cond).(*ast.CallExpr)
@@ -1787,7 +1787,7 @@ func ConstructorCompleteness(p *core.Program, r *core.Report) {
 			if fn := core.Callee(info, c); fn == nil || fn.Name() != "IsPodRepresentative" {
 				return true
 			}
-			if ret, isRet := ifs.Body.List[0].(*ast.ReturnStmt); isRet && len(ret.Results) == 2 && core.ExprStr(ret.Results[0]) == "false" {
+			if ret := LastReturn(ifs.Body); ret != nil && len(ret.Results) == 2 && core.ExprStr(ret.Results[0]) == "false" {
 				ok = true
 			}
 			return true
